@@ -281,6 +281,22 @@ def run(ctx):
         blind = [o for o in ops if o[1] in ("store", "swap") and self_field(o[2], "tail")]
         chk.ob("C05.c", f"{bpush.path} [tail moves by CAS only]", bool(cases) and not blind, f"{len(cases)} compare_exchange on tail, no unconditional write" if cases and not blind else f"push writes tail with an unconditional {blind[0][1] if blind else '?'}: two pushers that both saw the old tail each install a block, and the first one's block (with its values) is unlinked", blind[0][0].loc() if blind else bpush.loc(), nontrivial=False)
 
+        # a pusher that loses an install CAS goes on with the tail it was shown (`e.current`), never with its own unpublished
+        # block (`e.new`): values pushed into that block are linked from nowhere
+        own = []
+        sy_ = Sym(bpush)
+        for i_, k_, st in b.stmts():
+            if st["k"] == "assign":
+                pl_ = st["rv"].get("p") or (st["rv"].get("a") or {}).get("move") or (st["rv"].get("a") or {}).get("copy") or {}
+                if any(isinstance(e_, dict) and e_.get("f") == "new" and "CompareExchangeError" in str(e_.get("of", "")) for e_ in (pl_.get("pr") or [])):
+                    own.append((i_, st.get("ln")))
+        for c_ in b.calls():
+            for a_ in c_.args:
+                pl_ = a_.get("move") or a_.get("copy") or {}
+                if any(isinstance(e_, dict) and e_.get("f") == "new" and "CompareExchangeError" in str(e_.get("of", "")) for e_ in (pl_.get("pr") or [])):
+                    own.append((c_.bb, c_.line))
+        chk.ob("C05.c", f"{bpush.path} [a lost install continues with the current tail]", not own, "the error's `new` field (the pusher's own block) is never used" if not own else "after a failed install the pusher continues with its own unpublished block (`e.new`) instead of the installed one (`e.current`): what it pushes there is linked from nowhere and is never read or cleared", f"{bpush.file}:{own[0][1]}" if own else bpush.loc(), nontrivial=False)
+
     # ---------------- C05.d
     cw = one_method(chk, "C05.d", u, BKT, "clear_with")
     if cw:
